@@ -327,7 +327,7 @@ Lemma pid_time d :
   (forall m, d_misc d = Some m ->
      process_id d = (if Z.testbit (mi_flags1 m) 0 then Some (mi_pid m) else None) /\
      process_create_time d = (if Z.testbit (mi_flags1 m) 1 then Some (mi_ctime m) else None)) /\
-  (d_misc d = None -> process_id d = d_status_pid d /\ process_create_time d = None).
+  (d_misc d = None -> process_id d = option_map status_pid (d_status d) /\ process_create_time d = None).
 Proof.
   unfold process_id, process_create_time, MISC1_PROCESS_ID, MISC1_PROCESS_TIMES.
   split; [intros m H; rewrite H; auto|intro H; rewrite H; auto].
